@@ -170,12 +170,14 @@ class ModbusUdpProtocol(protocol.DatagramProtocol):
 
         :param data: The data sent by the client
         """
-        _logger.debug("Client Connected [%s]" % addr)
+        _logger.debug("Client Connected [%s]" % (addr,))
         if _logger.isEnabledFor(logging.DEBUG):
             _logger.debug("Datagram Received: "+ hexlify_packets(data))
         if not self.control.ListenOnly:
             continuation = lambda request: self._execute(request, addr)
-            self.framer.processIncomingPacket(data, continuation)
+            self.framer.processIncomingPacket(data, continuation,
+                                              single=self.store.single,
+                                              unit=self.store.slaves())
 
     def _execute(self, request, addr):
         """ Executes the request and returns the result
@@ -205,11 +207,12 @@ class ModbusUdpProtocol(protocol.DatagramProtocol):
         :param message: The unencoded modbus response
         :param addr: The (host, port) to send the message to
         """
-        self.control.Counter.BusMessage += 1
-        pdu = self.framer.buildPacket(message)
-        if _logger.isEnabledFor(logging.DEBUG):
-            _logger.debug('send: %s' % b2a_hex(pdu))
-        return self.transport.write(pdu, addr)
+        if getattr(message, 'should_respond', True):
+            self.control.Counter.BusMessage += 1
+            pdu = self.framer.buildPacket(message)
+            if _logger.isEnabledFor(logging.DEBUG):
+                _logger.debug('send: %s' % b2a_hex(pdu))
+            return self.transport.write(pdu, addr)
 
 
 # --------------------------------------------------------------------------- #
